@@ -32,7 +32,8 @@ def streams(tier, rng, P, only=None, cases=None):
                 parts.append(rng.choice(["%s(%d:%d:%d)", "%s(%d:%d:%d);", "%s=%d:%d:%d;"]) % (kw, m, b, t))
                 args = "%d,%d,%d" % (m, b, t)
             else:
-                nn = rng.randint(0, 5000)
+                # (also ticks at and beyond the four-byte limit of a delta time: the file still carries the whole value)
+                nn = rng.randint(0, 5000) if rng.random() < 0.8 else rng.choice([16383, 16384, 2097151, 2097152, 268435455, 268435456, 268435457, 300000000, 2147483653, 4294967301])
                 parts.append("TIME(%d)" % nn); args = str(nn)
             parts.append("n60")
             src = " ".join(parts)
@@ -45,6 +46,16 @@ def streams(tier, rng, P, only=None, cases=None):
         if not ons: return ("violation", "no note in the output")
         got = int(ons[-1].split(":")[1]); want = int(m[0].split("out=")[1])
         if got != want: return ("violation", "note placed at tick %d, TIME denotes tick %d" % (got, want))
+        # ... and in the file that is written (the delta times carry the position, however large)
+        try:
+            from ..smfpy import smf_events
+            trk = smf_events(f.get("bin", "~"))
+            fons = [e for e in (trk[0] if trk else []) if e[1] == "on"]
+        except Exception:
+            fons = None
+        if fons is not None and want >= 0:
+            if not fons: return ("violation", "no note in the file")
+            if fons[-1][0] != want: return ("violation", "in the file the note stands at tick %d, TIME denotes tick %d" % (fons[-1][0], want))
         return None
     s1 = Stream("time", cases if (cases and only == "time") else mk_time(), lambda c, st, f: [c["mreq"]], time_judge,
                 lambda c, i, m: m[0], "TIME(m:b:t) placements")
